@@ -114,6 +114,10 @@ pub fn record_artifacts(
     // Initialize artifacts
     let mut artifacts: BTreeMap<VirtualTargetPath, TargetDescription> =
         BTreeMap::new();
+    // the path each artifact was recorded from: the same path reached again
+    // (overlapping path arguments) is the same file, not a conflict
+    let mut recorded_from: BTreeMap<VirtualTargetPath, String> =
+        BTreeMap::new();
     // For each path provided, walk the directory and add all files to artifacts
     for path in paths {
         // Normalize path
@@ -138,11 +142,18 @@ pub fn record_artifacts(
                             hash_algorithms,
                             lstrip_paths,
                         )?;
+                        if recorded_from.get(&virtual_target_path)
+                            == Some(&path)
+                        {
+                            continue;
+                        }
                         if artifacts.contains_key(&virtual_target_path) {
                             return Err(Error::LinkGatheringError(format!(
                                 "non unique stripped path {virtual_target_path}"
                             )));
                         }
+                        recorded_from
+                            .insert(virtual_target_path.clone(), path.clone());
                         artifacts.insert(virtual_target_path, hashes);
                     }
                 }
@@ -151,11 +162,15 @@ pub fn record_artifacts(
             if file_type.is_file() {
                 let (virtual_target_path, hashes) =
                     record_artifact(&path, hash_algorithms, lstrip_paths)?;
+                if recorded_from.get(&virtual_target_path) == Some(&path) {
+                    continue;
+                }
                 if artifacts.contains_key(&virtual_target_path) {
                     return Err(Error::LinkGatheringError(format!(
                         "non unique stripped path {virtual_target_path}"
                     )));
                 }
+                recorded_from.insert(virtual_target_path.clone(), path.clone());
                 artifacts.insert(virtual_target_path, hashes);
             }
         }
